@@ -158,7 +158,10 @@ def robustpath(draw, size=1000, origin=(0, 0), props=gds_props, simple=None, non
         if k == "seg":
             ops.append(["seg", float(draw(st.integers(100, 300))), float(draw(st.integers(-100, 100)))])
         elif k == "arc":
-            ops.append(["arc", float(draw(st.integers(80, 200))), draw(st.sampled_from([-1.5, -0.5, 0.0])), draw(st.sampled_from([0.7, 1.5]))])
+            # start angles / sweeps for which the arc leaves heading east-ish and ends heading at most ~100 degrees from east:
+            # a following segment (always heading right) then never doubles back onto the arc (degenerate self-overlap,
+            # where the edge intersection search of the outline is ill-conditioned)
+            ops.append(["arc", float(draw(st.integers(80, 200))), draw(st.sampled_from([-1.5, -1.0, -1.5])), draw(st.sampled_from([0.7, 1.2]))])
         else:
             ops.append(["cubic", 100.0, 40.0, 200.0, -40.0, 300.0, 0.0])
     if simple is None:
@@ -326,6 +329,10 @@ def path_lines(pid, p, g):
             else:
                 lines.append("rp cubic %s 1 %s - -" % (pid, " ".join(fl(c * g) for c in op[1:])))
         kind = "rp"
+        if p.get("prescale"):
+            # the path is scaled after construction (its width/offset scale factors and matrix are then not the identity)
+            # (about its own start point, so that coordinates stay in range)
+            lines.append("xf rp %s scale %s %s %s" % (pid, fl(p["prescale"]), fl(p["start"][0] * g), fl(p["start"][1] * g)))
     if p["rep"] is not None:
         lines.append("rep set %s %s %s" % (kind, pid, rep_spec(p["rep"], g)))
     lines += prop_lines(kind, pid, p["props"])
